@@ -316,6 +316,92 @@ theorem agree_eager_unary (k : Str) (ar : Arity) (x : Json) (hk : lookupOp k = s
     · simp
     · simp [ofM_bind, opEager]
 
+theorem agree_data_arr (k : Str) (ar : Arity) (xs : List Json) (hk : lookupOp k = some (.data, ar))
+    (ih : ∀ x ∈ xs, Agree x) : Agree (.obj [(k, .arr xs)]) := by
+  intro d
+  rw [ofM_apply, check_strict_arr k .data ar xs hk (by decide), run_data k ar _ d hk]
+  conv => lhs; unfold eval
+  simp only [hk, evalList_eq xs ih d, operands]
+  cases ar.isValidLen xs.length
+  · simp
+  · cases checkList xs
+    · simp
+    · simp [ofM_bind, opData]
+
+theorem agree_data_unary (k : Str) (ar : Arity) (x : Json) (hk : lookupOp k = some (.data, ar))
+    (hx : ∀ xs, x ≠ .arr xs) (ih : Agree x) : Agree (.obj [(k, x)]) := by
+  intro d
+  rw [ofM_apply, check_strict_unary k .data ar x hk (by decide) hx, run_data k ar _ d hk, operands_unary x hx]
+  have he : eval (.obj [(k, x)]) d =
+      if (ar.canAcceptUnary && ar.isValidLen 1) = true then (eval x d >>= fun r => opData k d [r]) else fail := by
+    conv => lhs; unfold eval
+    simp only [hk]
+  rw [he, ih d, ofM_apply, runList_cons, runList_nil]
+  cases (ar.canAcceptUnary && ar.isValidLen 1)
+  · simp
+  · cases check x
+    · simp
+    · simp [ofM_bind, opData]
+
+/-! ## `if`, `?:`, `or`, `and` -/
+
+theorem agree_if_arr (k : Str) (hk : k = "if".toList ∨ k = "?:".toList) (xs : List Json)
+    (ih : ∀ x ∈ xs, Agree x) : Agree (.obj [(k, .arr xs)]) := by
+  intro d
+  have hl : lookupOp k = some (.lazy, .any) := by rcases hk with h | h <;> subst h <;> decide
+  have hb : (k = "if".toList || k = "?:".toList) = true := by rcases hk with h | h <;> subst h <;> decide
+  rw [ofM_apply, JL.Lemmas.C05.check_if k hk, if_pos rfl, JL.Lemmas.C05.run_if_arr k hk, ← evalIf_eq xs ih d]
+  conv => lhs; unfold eval
+  simp only [hl, hb, Arity.isValidLen, Bool.not_true, Bool.false_eq_true, if_false, if_true]
+
+theorem agree_if_unary (k : Str) (hk : k = "if".toList ∨ k = "?:".toList) (x : Json)
+    (hx : ∀ xs, x ≠ .arr xs) (ih : Agree x) : Agree (.obj [(k, x)]) := by
+  intro d
+  have hl : lookupOp k = some (.lazy, .any) := by rcases hk with h | h <;> subst h <;> decide
+  have hb : (k = "if".toList || k = "?:".toList) = true := by rcases hk with h | h <;> subst h <;> decide
+  have hb4 : (k = "if".toList || k = "?:".toList || k = "or".toList || k = "and".toList) = true := by
+    rcases hk with h | h <;> subst h <;> decide
+  rw [ofM_apply, JL.Lemmas.C05.check_if k hk, if_pos rfl, JL.Lemmas.C05.run_if_unary k hk x d hx]
+  conv => lhs; unfold eval
+  simp only [hl, hb4]
+  rw [show (JL.Props.C05.ev d x) = apply x d from rfl, ← ih d]
+  simp [Arity.isValidLen, Arity.canAcceptUnary]
+
+theorem agree_oa_arr (k : Str) (isOr : Bool) (hk : (k = "or".toList ∧ isOr = true) ∨ (k = "and".toList ∧ isOr = false))
+    (xs : List Json) (ih : ∀ x ∈ xs, Agree x) : Agree (.obj [(k, .arr xs)]) := by
+  intro d
+  have hl : lookupOp k = some (.lazy, .atLeast 1) := by rcases hk with ⟨h, _⟩ | ⟨h, _⟩ <;> subst h <;> decide
+  have hk' : k = "or".toList ∨ k = "and".toList := by rcases hk with ⟨h, _⟩ | ⟨h, _⟩ <;> simp [h]
+  have hrun : run (.obj [(k, .arr xs)]) d = JL.Lemmas.C05.oaSpec isOr d xs := by
+    rcases hk with ⟨h, h'⟩ | ⟨h, h'⟩ <;> subst h <;> subst h'
+    · rw [JL.Lemmas.C05.run_or_arr, JL.Lemmas.C05.oaSpec_or]
+    · rw [JL.Lemmas.C05.run_and_arr, JL.Lemmas.C05.oaSpec_and]
+  have heval : eval (.obj [(k, .arr xs)]) d = if decide (1 ≤ xs.length) = true then evalOrAnd isOr xs d else fail := by
+    conv => lhs; unfold eval
+    simp only [hl, Arity.isValidLen]
+    rcases hk with ⟨h, h'⟩ | ⟨h, h'⟩ <;> subst h <;> subst h'
+    · have h1 : ("or".toList = "if".toList || "or".toList = "?:".toList) = false := by decide
+      cases decide (1 ≤ xs.length) <;> simp
+    · have h1 : ("and".toList = "if".toList || "and".toList = "?:".toList) = false := by decide
+      have h2 : ("and".toList = "or".toList) = False := by decide
+      cases decide (1 ≤ xs.length) <;> simp
+  rw [ofM_apply, JL.Lemmas.C05.check_oa k hk', hrun, heval, evalOrAnd_eq isOr xs ih d]
+
+theorem agree_oa_unary (k : Str) (hk : k = "or".toList ∨ k = "and".toList) (x : Json)
+    (hx : ∀ xs, x ≠ .arr xs) (ih : Agree x) : Agree (.obj [(k, x)]) := by
+  intro d
+  have hl : lookupOp k = some (.lazy, .atLeast 1) := by rcases hk with h | h <;> subst h <;> decide
+  have hb : (k = "if".toList || k = "?:".toList || k = "or".toList || k = "and".toList) = true := by
+    rcases hk with h | h <;> subst h <;> decide
+  have hrun : run (.obj [(k, x)]) d = apply x d := by
+    rcases hk with h | h <;> subst h
+    · exact JL.Lemmas.C05.run_or_unary x d hx
+    · exact JL.Lemmas.C05.run_and_unary x d hx
+  rw [ofM_apply, JL.Lemmas.C05.check_oa_unary k hk x hx, if_pos rfl, hrun, ← ih d]
+  conv => lhs; unfold eval
+  simp only [hl, hb]
+  simp [Arity.isValidLen, Arity.canAcceptUnary]
+
 /-! ## `map`, `filter`, `reduce` -/
 
 theorem agree_fun (e : Json) (ih : Agree e) : (fun x => eval e x) = fun x => ofM (apply e x) := funext ih
@@ -427,5 +513,209 @@ theorem ofM_quantBody (isAll : Bool) (c p d : Json) (ihc : Agree c) (ihp : Agree
   | bool b => simp only [isObj, Bool.false_eq_true, if_false, ofM_quantValue, ret_bind]
   | num n => simp only [isObj, Bool.false_eq_true, if_false, ofM_quantValue, ret_bind]
   | str s => simp only [isObj, Bool.false_eq_true, if_false, ofM_quantValue, ret_bind]
+
+theorem check_filter_arr (xs : List Json) : check (.obj [("filter".toList, .arr xs)]) = (xs.length == 2) := by
+  unfold check; simp only [lookup_filter]; simp [Arity.isValidLen]
+theorem check_reduce_arr (xs : List Json) : check (.obj [("reduce".toList, .arr xs)]) = (xs.length == 3) := by
+  unfold check; simp only [lookup_reduce]; simp [Arity.isValidLen]
+
+theorem agree_filter (xs : List Json) (ih : ∀ x ∈ xs, Agree x) : Agree (.obj [("filter".toList, .arr xs)]) := by
+  intro d
+  rw [ofM_apply, check_filter_arr]
+  have h1 : ("filter".toList = "if".toList || "filter".toList = "?:".toList) = false := by decide
+  have h2 : ("filter".toList = "or".toList) = False := by decide
+  have h3 : ("filter".toList = "and".toList) = False := by decide
+  have h4 : ("filter".toList = "map".toList) = False := by decide
+  conv => lhs; unfold eval
+  simp only [lookup_filter, h1, h2, h3, h4, if_false, if_true, Bool.false_eq_true, Arity.isValidLen]
+  match xs, ih with
+  | [], _ => rfl
+  | [_], _ => rfl
+  | _ :: _ :: _ :: _, _ => rfl
+  | [c, e], ih =>
+    have ihc := ih c List.mem_cons_self d
+    have ihe := agree_fun e (ih e (List.mem_cons_of_mem _ List.mem_cons_self))
+    simp only [List.length_cons, List.length_nil, BEq.rfl, Bool.not_true, Bool.false_eq_true, if_false, if_true]
+    rw [run_filter, ofM_bind, ihc, ihe]
+    congr 1; funext cv
+    refine (coll_part cv e (fun items => filterData (fun x => run e x) items >>= fun rs => pure (Json.arr rs))
+      (fun items => filterR (fun x => ofM (apply e x)) items >>= fun rs => ret (Json.arr rs)) (ret (Json.arr [])) rfl ?_).symm
+    intro x xs
+    cases hc : check e
+    · rw [apply_fun_of_not_check e hc]; rfl
+    · rw [apply_fun_of_check e hc, ← ofM_filterData, ofM_bind]; rfl
+
+theorem agree_reduce (xs : List Json) (ih : ∀ x ∈ xs, Agree x) : Agree (.obj [("reduce".toList, .arr xs)]) := by
+  intro d
+  rw [ofM_apply, check_reduce_arr]
+  have h1 : ("reduce".toList = "if".toList || "reduce".toList = "?:".toList) = false := by decide
+  have h2 : ("reduce".toList = "or".toList) = False := by decide
+  have h3 : ("reduce".toList = "and".toList) = False := by decide
+  have h4 : ("reduce".toList = "map".toList) = False := by decide
+  have h5 : ("reduce".toList = "filter".toList) = False := by decide
+  conv => lhs; unfold eval
+  simp only [lookup_reduce, h1, h2, h3, h4, h5, if_false, if_true, Bool.false_eq_true, Arity.isValidLen]
+  match xs, ih with
+  | [], _ => rfl
+  | [_], _ => rfl
+  | [_, _], _ => rfl
+  | _ :: _ :: _ :: _ :: _, _ => rfl
+  | [c, e, i], ih =>
+    have ihc := ih c List.mem_cons_self d
+    have ihi := ih i (List.mem_cons_of_mem _ (List.mem_cons_of_mem _ List.mem_cons_self)) d
+    have ihe : (fun (acc x : Json) => eval e (reduceCtx acc x)) = fun acc x => ofM (apply e (reduceCtx acc x)) := by
+      funext acc x; exact ih e (List.mem_cons_of_mem _ List.mem_cons_self) _
+    simp only [List.length_cons, List.length_nil, BEq.rfl, Bool.not_true, Bool.false_eq_true, if_false, if_true]
+    rw [run_reduce, ofM_bind, ihc, ihe]
+    congr 1; funext cv
+    rw [ofM_bind, ihi]
+    congr 1; funext iv
+    refine (coll_part cv e (fun items => reduceData (fun x => run e x) items iv)
+      (fun items => foldR (fun acc x => ofM (apply e (reduceCtx acc x))) items iv) (ret iv) rfl ?_).symm
+    intro x xs
+    cases hc : check e
+    · have : (fun (acc x : Json) => ofM (apply e (reduceCtx acc x))) = fun _ _ => (fail : R Json) := by
+        funext acc x; rw [ofM_apply, hc]; rfl
+      rw [this]; rfl
+    · have : (fun (acc x : Json) => ofM (apply e (reduceCtx acc x))) = fun acc x => ofM (run e (reduceCtx acc x)) := by
+        funext acc x; rw [ofM_apply, if_pos hc]
+      rw [this, ← ofM_reduceData]; rfl
+
+theorem agree_quant (k : Str) (hk : k = "all".toList ∨ k = "some".toList ∨ k = "none".toList) (xs : List Json)
+    (ih : ∀ x ∈ xs, Agree x) (ih2 : ∀ c ∈ xs, ∀ elems, c = .arr elems → ∀ x ∈ elems, Agree x) :
+    Agree (.obj [(k, .arr xs)]) := by
+  intro d
+  have hl : lookupOp k = some (.lazy, .exactly 2) := by rcases hk with h | h | h <;> subst h <;> decide
+  have h1 : (k = "if".toList || k = "?:".toList) = false := by rcases hk with h | h | h <;> subst h <;> decide
+  have h2 : (k = "or".toList) = False := by rcases hk with h | h | h <;> subst h <;> decide
+  have h3 : (k = "and".toList) = False := by rcases hk with h | h | h <;> subst h <;> decide
+  have h4 : (k = "map".toList) = False := by rcases hk with h | h | h <;> subst h <;> decide
+  have h5 : (k = "filter".toList) = False := by rcases hk with h | h | h <;> subst h <;> decide
+  have h6 : (k = "reduce".toList) = False := by rcases hk with h | h | h <;> subst h <;> decide
+  have h7 : (k = "all".toList || k = "some".toList || k = "none".toList) = true := by
+    rcases hk with h | h | h <;> subst h <;> decide
+  rw [ofM_apply, JL.Lemmas.C14.check_quant k hk]
+  conv => lhs; unfold eval
+  simp only [hl, h1, h2, h3, h4, h5, h6, h7, if_false, if_true, Bool.false_eq_true, Arity.isValidLen]
+  match xs, ih, ih2 with
+  | [], _, _ => rfl
+  | [_], _, _ => rfl
+  | _ :: _ :: _ :: _, _, _ => rfl
+  | [c, p], ih, ih2 =>
+    have ihc := ih c List.mem_cons_self
+    have ihp := ih p (List.mem_cons_of_mem _ List.mem_cons_self)
+    have ihe := ih2 c List.mem_cons_self
+    simp only [List.length_cons, List.length_nil, BEq.rfl, Bool.not_true, Bool.false_eq_true, if_false, if_true]
+    show (quantBodyR (decide (k = "all".toList)) c p d >>= fun b => ret (Json.bool (if k = "none".toList then !b else b))) = _
+    rcases hk with h | h | h <;> subst h
+    · rw [run_all, ofM_quantBody true c p d ihc ihp ihe]
+      rfl
+    · rw [run_some, ofM_quantBody false c p d ihc ihp ihe]
+      rfl
+    · rw [run_none, ofM_bind, ofM_quantBody false c p d ihc ihp ihe, bind_assoc]
+      congr 1
+
+
+/-! ## the induction over the rule -/
+
+theorem arr_or_not (v : Json) : (∃ xs, v = .arr xs) ∨ (∀ xs, v ≠ .arr xs) := by
+  cases v <;> first | exact Or.inl ⟨_, rfl⟩ | exact Or.inr (fun _ h => by cases h)
+
+/-- a lazy operator whose arity is exactly 2 or 3 does not accept a bare operand: both semantics fail -/
+theorem agree_lazy_exact_unary (k : Str) (n : Nat) (x : Json) (hl : lookupOp k = some (.lazy, .exactly n)) (hn : n ≠ 1)
+    (hx : ∀ xs, x ≠ .arr xs) : Agree (.obj [(k, x)]) := by
+  intro d
+  have hc : check (.obj [(k, x)]) = false := by
+    unfold check
+    simp only [hl]
+    cases x <;> first | exact absurd rfl (hx _) | simp [Arity.canAcceptUnary, hn]
+  rw [ofM_apply, hc]
+  conv => lhs; unfold eval
+  simp only [hl]
+  simp [Arity.canAcceptUnary, hn]
+
+theorem agree_literal (r : Json) (h : ∀ k v, r ≠ .obj [(k, v)]) : Agree r := by
+  intro d
+  have h1 : eval r d = ret r := by
+    unfold eval
+    split
+    · exact absurd rfl (h _ _)
+    · rfl
+  have h2 : check r = true := by
+    unfold check
+    split
+    · exact absurd rfl (h _ _)
+    · rfl
+  have h3 : run r d = pure r := by
+    unfold run
+    split
+    · exact absurd rfl (h _ _)
+    · rfl
+  rw [ofM_apply, h1, h2, h3]; rfl
+
+/-- one step of the induction over the rule -/
+theorem agree_step (r : Json) (ih : ∀ r', sizeOf r' < sizeOf r → Agree r') : Agree r := by
+  by_cases hr : ∃ k v, r = .obj [(k, v)]
+  · obtain ⟨k, v, rfl⟩ := hr
+    have ihv : Agree v := ih v (sizeOf_lt_unary k v)
+    cases hl : lookupOp k with
+    | none => exact agree_nonop k v hl
+    | some p =>
+      obtain ⟨kind, ar⟩ := p
+      rcases arr_or_not v with ⟨xs, rfl⟩ | hx
+      · have ihxs : ∀ x ∈ xs, Agree x := fun x hx => ih x (sizeOf_lt_arr_elem k xs x hx)
+        cases kind with
+        | eager => exact agree_eager_arr k ar xs hl ihxs
+        | data => exact agree_data_arr k ar xs hl ihxs
+        | «lazy» =>
+          have hm := lookup_lazy_mem k ar hl
+          have hm' : k = "if".toList ∨ k = "?:".toList ∨ k = "or".toList ∨ k = "and".toList ∨ k = "map".toList ∨
+              k = "filter".toList ∨ k = "reduce".toList ∨ k = "all".toList ∨ k = "some".toList ∨ k = "none".toList := by
+            simpa [lazyKeys] using hm
+          rcases hm' with h | h | h | h | h | h | h | h | h | h
+          · exact agree_if_arr k (Or.inl h) xs ihxs
+          · exact agree_if_arr k (Or.inr h) xs ihxs
+          · exact agree_oa_arr k true (Or.inl ⟨h, rfl⟩) xs ihxs
+          · exact agree_oa_arr k false (Or.inr ⟨h, rfl⟩) xs ihxs
+          · subst h; exact agree_map xs ihxs
+          · subst h; exact agree_filter xs ihxs
+          · subst h; exact agree_reduce xs ihxs
+          all_goals
+            refine agree_quant k (by simp [h]) xs ihxs ?_
+            intro c hc elems he x hx
+            subst he
+            exact ih x (Nat.lt_trans (sizeOf_lt_elem elems x hx) (sizeOf_lt_arr_elem k xs _ hc))
+      · cases kind with
+        | eager => exact agree_eager_unary k ar v hl hx ihv
+        | data => exact agree_data_unary k ar v hl hx ihv
+        | «lazy» =>
+          have hm := lookup_lazy_mem k ar hl
+          have hm' : k = "if".toList ∨ k = "?:".toList ∨ k = "or".toList ∨ k = "and".toList ∨ k = "map".toList ∨
+              k = "filter".toList ∨ k = "reduce".toList ∨ k = "all".toList ∨ k = "some".toList ∨ k = "none".toList := by
+            simpa [lazyKeys] using hm
+          rcases hm' with h | h | h | h | h | h | h | h | h | h
+          · exact agree_if_unary k (Or.inl h) v hx ihv
+          · exact agree_if_unary k (Or.inr h) v hx ihv
+          · exact agree_oa_unary k (Or.inl h) v hx ihv
+          · exact agree_oa_unary k (Or.inr h) v hx ihv
+          · subst h; exact agree_lazy_exact_unary _ 2 v lookup_map (by decide) hx
+          · subst h; exact agree_lazy_exact_unary _ 2 v lookup_filter (by decide) hx
+          · subst h; exact agree_lazy_exact_unary _ 3 v lookup_reduce (by decide) hx
+          · subst h; exact agree_lazy_exact_unary _ 2 v lookup_all (by decide) hx
+          · subst h; exact agree_lazy_exact_unary _ 2 v lookup_some (by decide) hx
+          · subst h; exact agree_lazy_exact_unary _ 2 v lookup_none (by decide) hx
+  · exact agree_literal r (fun k v h => hr ⟨k, v, h⟩)
+
+/-- **Agreement**: the single-pass reference semantics yields exactly the successful outcomes of the model -/
+theorem eval_eq_ofM_apply (r d : Json) : eval r d = ofM (apply r d) := by
+  have : ∀ n, ∀ r, sizeOf r < n → Agree r := by
+    intro n
+    induction n with
+    | zero => intro r h; omega
+    | succ n ihn =>
+      intro r h
+      exact agree_step r (fun r' h' => ihn r' (by omega))
+  exact this (sizeOf r + 1) r (by omega) d
+
 
 end JL.Lemmas.C04Ref
